@@ -21,6 +21,15 @@ def seeded_model():
     return lsl.GraphBuilder().add(noise)
 
 
+def user_seed_model():
+    """a node that needs a seed but carries a user-supplied `seed` input (which takes precedence over the model's)"""
+    import liesel.model as lsl
+    a = lsl.Var(1.0, name="a")
+    useed = lsl.Value(jax.random.PRNGKey(7), _name="my_seed")
+    noise = lsl.Calc(lambda x, seed: x + jax.random.normal(seed), a, seed=useed, _name="noise2", _needs_seed=True)
+    return lsl.GraphBuilder().add(noise)
+
+
 def unnamed_model():
     import liesel.model as lsl
     a = lsl.Value(1.0)
@@ -36,6 +45,7 @@ def family():
     # ("user-supplied totals" is not a member: the user's total nodes are declared on the GraphBuilder, so a rebuild has to re-declare them)
     fam["seeded node"] = lambda: seeded_model().build_model()
     fam["unnamed nodes"] = lambda: unnamed_model().build_model()
+    fam["seeded node with user-supplied seed"] = lambda: user_seed_model().build_model()
     return fam
 
 
@@ -136,8 +146,24 @@ def concrete_checks(chk):
                 chk.violation(f"pop-rebuild:{name}", f"[{name}] pop + rebuild does not reproduce the model: {d}", dict(reproduced=True, note=d))
         chk.guarded(f"roundtrip:{name}", f"[{name}] build / copy / pop / rebuild / save-load round trips", one)
         n_models += 1
+    # completeness: every recursive input of the added nodes is in the built model, as the same object (copy=False)
+    for name, gbf in {"seeded node": seeded_model, "unnamed nodes": unnamed_model, "seeded node with user-supplied seed": user_seed_model}.items():
+        def comp(name=name, gbf=gbf):
+            gb = gbf()
+            pre, stack = [], [n for n in gb.nodes] + [n for v in gb.vars for n in v.nodes]
+            while stack:
+                n = stack.pop()
+                if not any(n is q for q in pre):
+                    pre.append(n)
+                    stack.extend(n.all_input_nodes())
+            m = gb.build_model()
+            missing = [repr(n) for n in pre if not any(n is q for q in m.nodes.values())]
+            if missing:
+                chk.violation(f"complete:{name}", f"[{name}] recursive inputs of the added nodes are missing from the built model: {missing[:3]}",
+                              dict(reproduced=True, observed=dict(missing=missing, model_nodes=sorted(m.nodes)), note="concrete inspection"))
+        chk.guarded(f"complete:{name}", f"[{name}] completeness of the built model", comp)
     # copy=True builds
-    for name, gbf in {"seeded node": seeded_model, "unnamed nodes": unnamed_model}.items():
+    for name, gbf in {"seeded node": seeded_model, "unnamed nodes": unnamed_model, "seeded node with user-supplied seed": user_seed_model}.items():
         def two(name=name, gbf=gbf):
             gb = gbf()
             m1 = gb.build_model(copy=True)
